@@ -118,8 +118,29 @@ fn ref_tag(frag: &Option<(wgen::Prog, Vec<Result<wgen::Goal, String>>)>, gi: usi
                 if !info.sols.is_empty() {
                     return "+ref-true";
                 }
-                if !info.unk {
+                // no solution in a bounded universe proves nothing about deeper ones: only unsatisfiable equations do
+                if info.unsat {
                     return "+ref-false";
+                }
+            }
+        }
+    }
+    ""
+}
+
+/// ref_tag, and where it is undecided for a goal with unknowns: the witness check on whichever answer is `Unique`
+fn ref_tag_w(frag: &Option<(wgen::Prog, Vec<Result<wgen::Goal, String>>)>, gi: usize, program: &chalk_integration::program::Program, a: &Sol, b: &Sol) -> &'static str {
+    let t = ref_tag(frag, gi);
+    if !t.is_empty() {
+        return t;
+    }
+    if let Some((prog, goals)) = frag {
+        if let Some(Ok(ast)) = goals.get(gi) {
+            for s in [a, b] {
+                match crate::refcheck::witness_holds(prog, ast, program, s, 40_000) {
+                    Some(true) => return "+ref-true",
+                    Some(false) => return "+ref-witness-false",
+                    None => {}
                 }
             }
         }
@@ -260,7 +281,7 @@ pub fn exec(m: Mode, spec: &Spec, r: &mut RunResult) {
                                         }
                                     }
                                 }
-                                sig.push_str(ref_tag(&frag, op.goal));
+                                sig.push_str(ref_tag_w(&frag, op.goal, &l.p, &a, &b));
                                 if hyp_mentions_unknown(&spec.world.goals[op.goal]) {
                                     sig.push_str("+unknown-in-hyp");
                                 }
@@ -305,7 +326,7 @@ pub fn exec(m: Mode, spec: &Spec, r: &mut RunResult) {
                                 }
                             }
                         }
-                        sig.push_str(ref_tag(&frag, gi));
+                        sig.push_str(ref_tag_w(&frag, gi, &l.p, a, b));
                         if hyp_mentions_unknown(&spec.world.goals[gi]) {
                             sig.push_str("+unknown-in-hyp");
                         }
